@@ -234,6 +234,13 @@ func (s *pipeStream[T]) Next(ctx context.Context) (T, error) {
 	case item := <-s.c:
 		return item, nil
 	case <-s.senderDone:
+		// Items sent before the sender was closed may still be buffered: hand them out before
+		// reporting the end.
+		select {
+		case item := <-s.c:
+			return item, nil
+		default:
+		}
 		err := *s.senderErr
 		if err != nil {
 			return zero, err
